@@ -122,7 +122,7 @@ class Contract(object):
     def __init__(self, target, prop, args=None, requires=None, ensures=None, raises=None,
                  modifies=(), loops=None, params=None, assumed=False, inline=False,
                  decreases=None, ghost=None, result_type=None, note="", lemmas=(), reads_heap=True,
-                 block=None, pure_result=None, uses=(), returns=None):
+                 block=None, pure_result=None, uses=(), returns=None, solver_hints=None):
         self.target = target
         self.prop = prop
         self.args = args or {}
@@ -141,6 +141,7 @@ class Contract(object):
         self.ghost = ghost
         self.uses = tuple(uses)        # proved background lemmas instantiated at function entry
         self.returns = returns         # spec term the result equals (used directly at call sites)
+        self.solver_hints = solver_hints or {}   # obligation-name fragment -> {"cli_s": seconds, "only": "cvc5"}
 
 
 class Registry(object):
@@ -209,7 +210,7 @@ class Outcome(object):
         self.kind, self.st, self.val, self.exc = kind, st, val, exc
 
 
-QUICK_TIMEOUT_MS = 300
+QUICK_TIMEOUT_MS = 20
 
 
 def split_goal(g, depth=0):
@@ -240,6 +241,8 @@ def split_goal(g, depth=0):
 
 def feasible(pc):
     """cheap pruning of infeasible paths (unknown counts as feasible)"""
+    if QUICK_TIMEOUT_MS <= 0:
+        return not z3.is_false(z3.simplify(pc[-1])) if pc else True
     s = z3.Solver()
     s.set("timeout", QUICK_TIMEOUT_MS)
     s.add(*pc)
@@ -277,12 +280,7 @@ class Exec(object):
         goal = tobool(goal) if isinstance(goal, (VBool, bool)) else goal
         full = "%s.%s" % (self.prefix, name)
         pc = list(st.pc)
-        parts = split_goal(goal)
-        for k, g in enumerate(parts):
-            inf = dict(info or {})
-            if len(parts) > 1:
-                inf["conjunct"] = k
-            self.obligations.append(Obligation(full, kind, pc, g, inf))
+        self.obligations.append(Obligation(full, kind, pc, goal, dict(info or {})))
         st.assume(goal)
 
     def line(self, node):
@@ -368,11 +366,15 @@ class Exec(object):
         S = SpecCtx(self, st, self.entry_heap, args)
         for exc, cond in c.raises.items():
             self.oblige(st, "raises.%s.complete" % exc, vnot(cond(S, *args.values())), "raises")
+        # every postcondition clause is proved from the path condition alone (not from the other clauses)
+        pc0 = list(st.pc)
         if c.returns is not None:
             self.oblige(st, "post.returns", veq(res, c.returns(S, *args.values())), "post")
+            del st.pc[len(pc0):]
         if c.ensures:
             for name, fnc in c.ensures.items():
                 self.oblige(st, "post.%s" % name, fnc(S, *(list(args.values()) + [res])), "post")
+                del st.pc[len(pc0):]
         # frame: every heap field not in modifies is unchanged
         frame = [k for k in st.heap.all_fields() if k not in c.modifies and
                  st.heap.f[k] is not self.entry_heap.f[k]]
@@ -520,6 +522,7 @@ class Exec(object):
         self.oblige(st, tag + ".init", inv(SpecCtx(self, st, self.entry_heap, {"pre": pre_snap})), "inv-init")
         st = st.fork()
         self._havoc(st, node, spec)
+        n_head = len(st.pc)
         st.assume(tobool(inv(SpecCtx(self, st, self.entry_heap, {"pre": pre_snap}))))
         c = self.truth(self.ev(node.test, st), st)
         outs = []
@@ -538,7 +541,7 @@ class Exec(object):
             for o in self._with_raises(st_b, self.exec_block(node.body, st_b)):
                 if o.kind in ("normal", "continue"):
                     Sx = SpecCtx(self, o.st, self.entry_heap, {"pre": pre_snap})
-                    self.oblige(o.st, tag + ".keep", inv(Sx), "inv-keep")
+                    self.oblige(o.st, tag + ".keep", inv(Sx), "inv-keep", {"local_from": n_head})
                     if var0 is not None:
                         v1 = toint(spec["variant"](Sx))
                         self.oblige(o.st, "var%d" % ordn, z3.And(var0 >= 0, v1 < var0), "variant")
@@ -546,7 +549,20 @@ class Exec(object):
                     outs.append(Outcome("normal", o.st))
                 else:
                     outs.append(o)
+        self._after_loop(outs, spec, ordn, pre_snap, None, None, n_head)
         return outs
+
+    def _after_loop(self, outs, spec, ordn, pre_snap, it, seq, n_head=None):
+        """ghost assertion at every exit of the loop that continues after it (proved, then assumed)"""
+        if spec.get("after") is None:
+            return
+        for o in outs:
+            if o.kind == "normal":
+                extra = {"pre": pre_snap}
+                if seq is not None:
+                    extra["seq"] = seq
+                self.oblige(o.st, "inv%d.after" % ordn, spec["after"](SpecCtx(self, o.st, self.entry_heap, extra)),
+                            "inv-after", {"local_from": n_head} if n_head is not None else None)
 
     def exec_for(self, node, st):
         if node.orelse:
@@ -572,6 +588,7 @@ class Exec(object):
         tgt_names = _target_names(node.target)
         self._havoc(st, node, spec, tgt_names)
         it = z3.Int(fresh_name("it%d" % ordn))
+        n_head = len(st.pc)
         st.assume(z3.And(it >= 0, it <= seq.n))
         st.assume(tobool(inv(ctx(st, it))))
         outs = []
@@ -591,11 +608,12 @@ class Exec(object):
             self.assign(node.target, seq.get(it), st_b)
             for o in self._with_raises(st_b, self.exec_block(node.body, st_b)):
                 if o.kind in ("normal", "continue"):
-                    self.oblige(o.st, tag + ".keep", inv(ctx(o.st, it + 1)), "inv-keep")
+                    self.oblige(o.st, tag + ".keep", inv(ctx(o.st, it + 1)), "inv-keep", {"local_from": n_head})
                 elif o.kind == "break":
                     outs.append(Outcome("normal", o.st))
                 else:
                     outs.append(o)
+        self._after_loop(outs, spec, ordn, pre_snap, it, seq, n_head)
         return outs
 
     def iter_list(self, v, st, node):
@@ -939,11 +957,11 @@ class Exec(object):
         key = (t.get_id(), z3.simplify(l).get_id(), z3.simplify(ln).get_id())
         if key in memo:
             return memo[key]
-        p, m, q = [z3.String(fresh_name(x)) for x in ("sp", "sm", "sq")]
-        n = z3.Length(t)
-        st.assume(z3.Implies(z3.And(l >= 0, ln >= 0, l + ln <= n),
-                             z3.And(t == z3.Concat(p, m, q), z3.Length(p) == l, z3.Length(m) == ln)))
-        st.assume(z3.Implies(z3.Not(z3.And(l >= 0, ln >= 0, l + ln <= n)), m == z3.SubString(t, l, ln)))
+        mf, axs = piece_axioms(t, z3.simplify(l), z3.simplify(ln))
+        for a in axs:
+            st.assume(a)
+        m = z3.String(fresh_name("sm"))
+        st.assume(m == mf)
         st.env["$pieces"] = dict(memo)
         st.env["$pieces"][key] = m
         return m
@@ -1618,8 +1636,13 @@ class Exec(object):
                 raise Unsupported("str.%s with a needle that is not a 1-character constant" % meth)
             ct = z3.StringVal(c)
             r = z3.Int(fresh_name(meth))
+            # the two sides of the split at the last (rfind) / first (find) occurrence are *functions* of
+            # (string, needle): the split is unique, so contracts can name the same pieces
+            pre_f, suf_f = (LAST_PRE(t, ct), LAST_SUF(t, ct)) if meth == "rfind" else (FIRST_PRE(t, ct), FIRST_SUF(t, ct))
+            # named by fresh constants (small terms for the string solver), tied to the spec functions
             pre = z3.String(fresh_name("pre"))
             suf = z3.String(fresh_name("suf"))
+            st.assume(z3.And(pre == pre_f, suf == suf_f))
             clean = suf if meth == "rfind" else pre
             st.assume(z3.Or(
                 z3.And(r == -1, z3.Not(z3.Contains(t, ct))),
@@ -1657,6 +1680,31 @@ IS_INT_LIT = z3.Function("py_is_int_literal", sym.StrS, sym.BoolS)
 STR_TO_INT = z3.Function("py_str_to_int", sym.StrS, IntS)
 STR_LOWER = z3.Function("py_lower", sym.StrS, sym.StrS)
 INT_TO_STR = z3.Function("py_int_to_str", IntS, sym.StrS)
+
+
+LAST_PRE = z3.Function("py_last_pre", sym.StrS, sym.StrS, sym.StrS)
+LAST_SUF = z3.Function("py_last_suf", sym.StrS, sym.StrS, sym.StrS)
+FIRST_PRE = z3.Function("py_first_pre", sym.StrS, sym.StrS, sym.StrS)
+FIRST_SUF = z3.Function("py_first_suf", sym.StrS, sym.StrS, sym.StrS)
+PIECE_P = z3.Function("py_piece_p", sym.StrS, IntS, IntS, sym.StrS)
+PIECE_M = z3.Function("py_piece_m", sym.StrS, IntS, IntS, sym.StrS)
+PIECE_Q = z3.Function("py_piece_q", sym.StrS, IntS, IntS, sym.StrS)
+
+
+def piece_axioms(t, l, ln):
+    """t[l:l+ln] == PIECE_M(t,l,ln) with t == P . M . Q, |P| == l, |M| == ln (when in range)"""
+    p, m, q = PIECE_P(t, l, ln), PIECE_M(t, l, ln), PIECE_Q(t, l, ln)
+    n = z3.Length(t)
+    inr = z3.And(l >= 0, ln >= 0, l + ln <= n)
+    return m, [z3.Implies(inr, z3.And(t == z3.Concat(p, m, q), z3.Length(p) == l, z3.Length(m) == ln)),
+               z3.Implies(z3.Not(inr), m == z3.SubString(t, l, ln))]
+
+
+def last_split_axioms(t, c):
+    """what rfind(c) (one-character c) says about t, in terms of the spec functions"""
+    pre, suf = LAST_PRE(t, c), LAST_SUF(t, c)
+    return z3.Implies(z3.Contains(t, c),
+                      z3.And(t == z3.Concat(pre, c, suf), z3.Not(z3.Contains(suf, c))))
 
 
 SPLIT_LEN = z3.Function("py_split_len", sym.StrS, sym.StrS, IntS)
